@@ -200,7 +200,8 @@ CHECKS = {
              "C02_new_doc_nav_wf / _cursor_pre / _compl_wf / _fold_pre / _doc_wf). Not proved, fuzzed against the built binary: "
              "the process level (one well-formed response per request, process alive; documents nested up to depth 400; stack "
              "and memory), formatting's handler totality, and documents reached by edits: AnalyzedSource::update can panic after edits (known finding C02-incparse-panic, class: "
-             "predicted by the model of the pinned incremental parser).",
+             "predicted by the model of the pinned incremental parser). Known finding C02-stack-exhaustion: nesting beyond what the 64 MiB "
+             "thread stack allows (about 950 nested if / while statements in the debug build) ends the process; probed in every run.",
         design_ref="DESIGN.md sections 5 (C02) and 10.2",
         technique="Coq proof of totality/panic-freedom of the whole analysis pipeline model (lexer, parser, table, semantic analysis, diagnostics conversion) and of all request handlers on every analysed text + model/implementation correspondence on outcomes + request fuzzing of the binary"),
     "C03": dict(
